@@ -455,6 +455,15 @@ class Eval:
 
     def s_For(self, st):
         it = self.ev(st.iter)
+        # a loop over a short literal sequence (`for v, ids in [(v0, ids0), (v1, ids1)]:`) is its body written out once per element
+        if it[0] == "seq" and 1 <= len(it[1]) <= 4 and not st.orelse and \
+                not any(isinstance(n_, (ast.Break, ast.Continue)) for b_ in st.body for n_ in ast.walk(b_)):
+            for elem in it[1]:
+                self.bind_target(st.target, elem)
+                status = self.block(st.body)
+                if status:
+                    return status
+            return None
         L = self.fresh()
         bv = ("bv", L)
         rebound = self.rebound_names(st.body)
@@ -529,6 +538,18 @@ class Eval:
         self._split_inner = self.canon_body(L2, Y, n0, r0, li0)
         return X, [bv2]
 
+    _effects_cache = {}
+
+    def _effects_of(self, qualname):
+        key = (id(self.repo), qualname)
+        if key not in Eval._effects_cache:
+            try:
+                eff = self.repo.transitive_attr_effects(qualname, kinds=("elem", "mut", "del_elem", "rebind"))
+                Eval._effects_cache[key] = {a for a in eff if not a.startswith("$")}
+            except Exception:
+                Eval._effects_cache[key] = set()
+        return Eval._effects_cache[key]
+
     def canon_body(self, L, it, n0, r0, li0, extra=None):
         """rewrite everything the body of loop L produced into the canonical spelling of its iteration idiom"""
         bv = ("bv", L)
@@ -569,6 +590,16 @@ class Eval:
             for x in T.subterms(m):
                 if x[0] == "lc" and isinstance(self.summary.loop_init.get((x[1], x[2])), tuple):
                     mutated.append(self.summary.loop_init[(x[1], x[2])])
+        # ... and what the package functions called in the body change (transitively): `edges[e].replace_vertex(old, new)` removes e from
+        # old.ownEdges, so a snapshot of old.ownEdges must not be fused with the live list either
+        if any(x[0] == "attr" for x in T.subterms(it)):
+            attrs = set()
+            for e in evs:
+                if e.kind == "call" and isinstance(getattr(e, "target", None), str) and e.target in self.repo.functions:
+                    attrs |= self._effects_of(e.target)
+            for x in T.subterms(it):
+                if x[0] == "attr" and x[2] in attrs:
+                    mutated.append(x)
         it2, mappings, conds = canon_loop(bv, it, terms, mutated)
         if not mappings and it2 == it and not conds:
             return it
@@ -758,6 +789,9 @@ class Eval:
             return ("bool", len(t[1]) > 0)
         if t[0] == "none":
             return T.FALSE
+        if t[0] in ("map", "concat", "flatmap") or (t[0] == "phi" and all(b_[0] in ("map", "concat", "flatmap", "seq") for b_ in (t[2], t[3]))):
+            # a list is true when it is not empty: `if xs:` is `if len(xs) != 0:`
+            return T.ige(simplify_call("len", None, (t,), ()), 1)
         return t
 
     def ev(self, node):
@@ -1191,6 +1225,9 @@ class Eval:
             if meth in ("update", "extend", "remove", "insert", "clear", "pop", "sort", "reverse", "discard"):
                 self.set_place(holder, ("mut", meth, recv, tuple(args)))
                 if meth == "pop":
+                    if args:
+                        # d.pop(k[, default]) removes the entry like `del d[k]` (and hands the value back)
+                        self.emit("del", n, base=recv, key=args[0], attr=self._attr_name(holder))
                     return ("call", ("m", "pop"), (recv,) + tuple(args), ())
                 return T.NONE
         # --- inlining of small helpers
@@ -1239,6 +1276,11 @@ class Eval:
         for p, d in target.defaults().items():
             if p not in bind and p in params:
                 bind[p] = sub.ev(d)
+        if target.parent is not None and target.parent is self.func:
+            captured = dict(self.env)            # a closure sees the enclosing function's locals as they are at the call
+            captured.update(sub.env)
+            sub.env = captured
+            sub.alias = dict(self.alias)
         sub.env.update(bind)
         sub.guard = list(self.guard)
         sub.try_stack = list(self.try_stack)
@@ -1292,7 +1334,9 @@ def auto_inline(target):
     if n.startswith("_"):
         return True
     k = known_functions()
-    return bool(k) and target.qualname not in k and target.parent is None
+    # a function defined inside another one that did not exist at binding time is a local helper too (its free variables are the
+    # enclosing function's locals at the call)
+    return bool(k) and target.qualname not in k
 
 
 # ---------------------------------------------------------------------- term builders
@@ -1625,6 +1669,9 @@ def simplify_call(fname, recv, args, kw):
         return T.neg(args[0])
     if fname == "bool" and len(args) == 1 and args[0][0] in ("and", "or", "not", "exists", "forall", "ige", "cmp", "in", "bool"):
         return args[0]
+    if fname in ("max", "min") and len(args) == 1 and dict(kw).keys() == {"default"}:
+        # max(xs, default=d) is max(xs) for a non-empty xs and d otherwise
+        return T.phi(T.ige(simplify_call("len", None, (args[0],), ()), 1), simplify_call(fname, None, args, ()), dict(kw)["default"])
     if fname in ("list", "tuple") and len(args) == 1:
         a = args[0]
         if a[0] in ("seq", "map", "concat", "flatmap"):
@@ -1636,6 +1683,8 @@ def simplify_call(fname, recv, args, kw):
         return T.seq(())
     if fname == "len" and len(args) == 1:
         a = args[0]
+        if a[0] == "call" and a[1] in (("m", "keys"), ("m", "values"), ("m", "items")) and len(a[2]) == 1:
+            return simplify_call("len", None, (a[2][0],), ())        # a mapping and its views have the same length
         if a[0] in ("seq", "arr"):
             return T.num(len(a[1]))
         if a[0] == "map" and a[4] == T.TRUE:
